@@ -204,16 +204,17 @@ theorem TOk.new (num mh : Nat) (t : Bool) (k : Nat) : TOk (Tree.new num mh t k) 
 
 theorem TOk.loaded (s : Tree) (h : s.md5 = some s.digest) : TOk s := Or.inr h
 
+theorem TOk.ite {c : Prop} [Decidable c] {a b : Tree} (ha : TOk a) (hb : TOk b) :
+    TOk (if c then a else b) := by
+  split <;> assumption
+
+theorem TOk.removeFromSet {s : Tree} (h : Nat) (hs : TOk s) : TOk (s.removeFromSet h) := by
+  unfold Tree.removeFromSet
+  exact TOk.ite (TOk.reset _) hs
+
 theorem TOk.remove {s : Tree} (h : Nat) (hs : TOk s) : TOk (s.remove h) := by
   unfold Tree.remove
-  simp only []
-  split
-  · split
-    · exact TOk.same rfl rfl rfl (TOk.reset _)
-    · exact TOk.reset _
-  · split
-    · exact TOk.same rfl rfl rfl hs
-    · exact hs
+  exact TOk.ite (TOk.same rfl rfl rfl (TOk.removeFromSet h hs)) (TOk.removeFromSet h hs)
 
 theorem TOk.removeMany {s : Tree} (hs : List Nat) (h : TOk s) : TOk (s.removeMany hs) := by
   unfold Tree.removeMany
@@ -221,14 +222,14 @@ theorem TOk.removeMany {s : Tree} (hs : List Nat) (h : TOk s) : TOk (s.removeMan
   | nil => exact h
   | cons x t ih => exact ih (TOk.remove x h)
 
-theorem TOk.ite {c : Prop} [Decidable c] {a b : Tree} (ha : TOk a) (hb : TOk b) :
-    TOk (if c then a else b) := by
-  split <;> assumption
+theorem TOk.insertHash {s : Tree} (h a : Nat) (hs : TOk s) : TOk (s.insertHash h a) := by
+  unfold Tree.insertHash
+  exact TOk.same rfl rfl rfl (TOk.ite (TOk.reset _) hs)
 
 theorem TOk.add {s : Tree} (h a : Nat) (hs : TOk s) : TOk (s.add h a) := by
   unfold Tree.add
   exact TOk.ite hs (TOk.ite hs (TOk.ite hs (TOk.ite (TOk.reset _)
-    (TOk.ite (TOk.ite (TOk.reset _) (TOk.same rfl rfl rfl (TOk.ite (TOk.reset _) hs))) hs))))
+    (TOk.ite (TOk.ite (TOk.reset _) (TOk.insertHash h a hs)) hs))))
 
 theorem TOk.clear (s : Tree) : TOk s.clear := TOk.reset _
 
